@@ -26,11 +26,13 @@ class Lane:
         self.name = name
         self.mode = mode
         self.cases = []        # (driver line, real outcome, python repr)
+        self.tags = []
         self.dist = collections.Counter()
         self.skipped = 0
 
     def add(self, line, real_out, desc, tag=None):
         self.cases.append((line, real_out, desc))
+        self.tags.append(tag)
         if tag:
             self.dist[tag] += 1
 
@@ -51,7 +53,21 @@ class Lane:
             return 'ok ' + p[1] if len(p) > 1 and p[1].lstrip('-').isdigit() else 'ok'
         return ' '.join(p[:2])
 
-    def run(self):
+    def run(self, split=False):
+        """split=True: one result per tag (lane name `<name>.<tag>`), so that a property can depend on
+        exactly the sub-lanes it needs"""
+        if split:
+            groups = collections.OrderedDict()
+            for c, t in zip(self.cases, self.tags):
+                groups.setdefault(t or 'other', []).append(c)
+            out = []
+            for t, cases in groups.items():
+                sub = Lane('%s.%s' % (self.name, t), self.mode)
+                sub.cases = cases
+                sub.tags = [t] * len(cases)
+                sub.dist = collections.Counter({t: len(cases)})
+                out.append(sub.run())
+            return out
         t0 = time.time()
         lines = [c[0] for c in self.cases]
         outs = proto.run_driver(lines)
@@ -62,6 +78,8 @@ class Lane:
             a, b = canon(real_out), canon(model_out)
             if self.mode == 'class':
                 a, b = self.klass(a), self.klass(b)
+            elif self.mode == 'envelope':
+                a, b = envelope_of(a), envelope_of(b)
             outcomes['real:' + ' '.join(real_out.split(' ')[:2] if real_out.startswith('err') else ['ok'])] += 1
             distinct.add(hashlib.sha1(line.encode()).digest()[:8])
             if model_out.startswith('bad-op'):
@@ -214,7 +232,7 @@ def lane_enc_prim(ctx):
                     with real.legacy(lg):
                         return outcome(encode.by_type, v, ty, show=show_bytes)
                 ln.try_add(lambda: 'enc.bytype %d %s %s' % (lg, ty, sx(v)), mk_real, 'by_type(%r,%r) legacy=%d' % (v, ty, lg), 'by_type.' + ty)
-    return ln.run()
+    return ln.run(split=True)
 
 
 def lane_enc_tint(ctx):
@@ -291,13 +309,24 @@ def lane_dec_prim(ctx):
             datas.append(bytes(r.getrandbits(8) for _ in range(r.choice([0, 1, 2, 3, 4, 5, 7, 8, 9, 12]))))
         for d in datas:
             ln.add('dec.prim %s %s' % (name, hexb(d)), outcome(fn, d, show=show_dec), '%s(%r)' % (name, d), name)
+    # every code point (thorough) / the special ones + a stride (quick) at the start, middle and end of a string
+    cps = range(0x110000) if ctx.thorough else sorted(set(G.CODEPOINTS) | set(range(0, 0x110000, 257)))
+    for c in cps:
+        if 0xD800 <= c < 0xE000:
+            continue
+        for text in (chr(c) + 'ab', 'a' + chr(c) + 'b', 'ab' + chr(c)):
+            raw = text.encode('utf-8')
+            d = struct.pack('>I', len(raw)) + raw
+            ln.add('dec.prim long_str %s' % hexb(d), outcome(decode.long_str, d, show=show_dec), 'long_str(%r)' % d, 'long_str')
+            d = bytes([len(raw)]) + raw
+            ln.add('dec.prim short_str %s' % hexb(d), outcome(decode.short_str, d, show=show_dec), 'short_str(%r)' % d, 'short_str')
     for ty in ['bit', 'octet', 'short', 'long', 'longlong', 'shortstr', 'longstr', 'table', 'timestamp', 'nosuch']:
         for _ in range(n // 2):
             d = bytes(r.getrandbits(8) for _ in range(r.choice([0, 1, 2, 4, 5, 8, 9, 13])))
             off = r.randrange(0, 9)
             ln.add('dec.bytype %s %d %s' % (ty, off, hexb(d)), outcome(decode.by_type, d, ty, off, show=show_dec),
                    'by_type(%r,%r,%d)' % (d, ty, off), 'by_type.' + ty)
-    return ln.run()
+    return ln.run(split=True)
 
 
 def encoded_values(ctx, n):
@@ -559,7 +588,7 @@ def lane_props(ctx):
                 p2.unmarshal(fl, tail)
                 return [getattr(p2, a) for a in p2.__slots__]
             lu2 = outcome(un, show=lambda vs: ' '.join(sx(v) for v in vs))
-            lu.cases.append(('props.unmarshal %d %s' % (fl, hexb(tail)), lu2, repr((fl, tail))))
+            lu.add('props.unmarshal %d %s' % (fl, hexb(tail)), lu2, repr((fl, tail)), 'random')
     lu.mode = 'exact'
     return [lm.run(), lu.run(), lf.run()]
 
@@ -588,11 +617,46 @@ def random_frame(ctx, kinds='MHBPX'):
     return heartbeat.Heartbeat(), ch
 
 
+def kind_of(f):
+    if isinstance(f, base.Frame):
+        return 'M'
+    if isinstance(f, header.ContentHeader):
+        return 'H'
+    if isinstance(f, body.ContentBody):
+        return 'B'
+    if isinstance(f, header.ProtocolHeader):
+        return 'P'
+    if isinstance(f, heartbeat.Heartbeat):
+        return 'HB'
+    return 'X'
+
+
+def envelope_of(out):
+    """'ok <hex>' -> the envelope only: first 7 bytes, length, last byte"""
+    if not out.startswith('ok '):
+        return out.split(' ')[0] if out.startswith('err') else out
+    h = out[3:]
+    if h == '-':
+        return 'ok empty'
+    return 'ok %s %d %s' % (h[:14], len(h) // 2, h[-2:])
+
+
+def size_boundaries(ctx):
+    """payload sizes around every mined literal / constant that could be a size limit"""
+    out = set()
+    for lit in getattr(ctx, 'literals', []) + [4096, 131072]:
+        if 16 <= lit <= 300000:
+            for d in (-8, -1, 0, 1, 8):
+                out.add(lit + d)
+    return sorted(x for x in out if x > 0)
+
+
 def lane_frame(ctx):
     lm = Lane('frame.marshal')
     lu = Lane('frame.unmarshal')
     lp = Lane('frame.parts')
     lx = Lane('frame.unmarshal.malformed', mode='class')
+    le = Lane('frame.envelope', mode='envelope')
     g = ctx.gen
     n = 3000 if ctx.thorough else 500
     for i in range(n):
@@ -604,12 +668,14 @@ def lane_frame(ctx):
             continue
         with real.legacy(lg):
             ro = outcome(frame.marshal, f, ch, show=show_bytes)
-        lm.add(line, ro, '%s ch=%d' % (frame_sx(f)[:300], ch), type(f).__name__)
+        k = kind_of(f)
+        lm.add(line, ro, '%s ch=%d' % (frame_sx(f)[:300], ch), k)
+        le.add(line, ro, '%s ch=%d' % (frame_sx(f)[:300], ch), k)
         if not ro.startswith('ok '):
             continue
         data = bytes.fromhex(ro[3:])
         junk = g.r.choice([b'', b'', b'\xce', b'AMQP', b'\x01\x00\x00', bytes(g.r.getrandbits(8) for _ in range(9))])
-        lu.add('frame.unmarshal %s' % hexb(data + junk), outcome(frame.unmarshal, data + junk, show=show_frame), repr(data)[:300], type(f).__name__)
+        lu.add('frame.unmarshal %s' % hexb(data + junk), outcome(frame.unmarshal, data + junk, show=show_frame), repr(data)[:300], k)
         lp.add('frame.parts %s' % hexb(data + junk), outcome(frame.frame_parts, data + junk, show=lambda t: '%s %s %s' % t), repr(data)[:100], 'own')
         if i % 5 == 0:
             cuts = range(len(data)) if len(data) < 64 else sorted(set(list(range(12)) + [len(data) - k for k in range(1, 6)] + [g.r.randrange(len(data)) for _ in range(8)]))
@@ -618,6 +684,21 @@ def lane_frame(ctx):
             for m in mutations(data, g.r, 12):
                 if len(m) < 70000:
                     lx.add('frame.unmarshal %s' % hexb(m), outcome(frame.unmarshal, m, show=show_frame), repr(m)[:200], 'mutation')
+    # bodies whose size sits on a mined size boundary, filled with frame-end octets
+    for n_ in size_boundaries(ctx):
+        for fill in (b'\xce', b'\x00'):
+            content = fill * n_
+            f = body.ContentBody(content)
+            line = 'frame.marshal 0 (i 3) %s' % frame_sx(f)
+            ro = outcome(frame.marshal, f, 3, show=show_bytes)
+            lm.add(line, ro, 'body %r*%d' % (fill, n_), 'B')
+            le.add(line, ro, 'body %r*%d' % (fill, n_), 'B')
+            if ro.startswith('ok '):
+                data = bytes.fromhex(ro[3:])
+                lu.add('frame.unmarshal %s' % hexb(data), outcome(frame.unmarshal, data, show=show_frame), 'body %r*%d' % (fill, n_), 'B')
+                for k_ in (len(data) - 1, len(data) - 8, n_ + 7, n_):
+                    if 0 <= k_ < len(data):
+                        lx.add('frame.unmarshal %s' % hexb(data[:k_]), outcome(frame.unmarshal, data[:k_], show=show_frame), 'body %r*%d cut %d' % (fill, n_, k_), 'prefix')
     # wrong-typed frames / channels
     for f, ch in [(body.ContentBody('text'), 1), (body.ContentBody(None), 1), (body.ContentBody(bytearray(b'ab')), 1),
                   (heartbeat.Heartbeat(), 70000), (body.ContentBody(b'x'), 65536), (body.ContentBody(b'x'), -1),
@@ -629,7 +710,7 @@ def lane_frame(ctx):
             line = 'frame.marshal 0 %s %s' % (sx(ch), frame_sx(f))
         except Unrepresentable:
             continue
-        lm.add(line, outcome(frame.marshal, f, ch, show=show_bytes), '%s ch=%r' % (frame_sx(f)[:200], ch), 'wrong')
+        lm.add(line, outcome(frame.marshal, f, ch, show=show_bytes), '%s ch=%r' % (frame_sx(f)[:200], ch), 'wrong.' + kind_of(f))
     # header bytes: every value of each of the 7 header bytes, short buffers, big fields
     base7 = bytearray(b'\x01\x00\x01\x00\x00\x00\x05')
     bufs = [bytes(base7[:k]) for k in range(8)]
@@ -649,7 +730,7 @@ def lane_frame(ctx):
               b'\x02\x00\x01\x00\x00\x00\x10' + b'\x00\x3c\x00\x00' + b'\x00' * 8 + b'\x00\x01\x00\x00' + b'\xce',
               b'\x04\x00\x01\x00\x00\x00\x01\x00\xce', b'\x03\x00\x01\x00\x00\x00\x01\x00\xcf']:
         lx.add('frame.unmarshal %s' % hexb(d), outcome(frame.unmarshal, d, show=show_frame), repr(d), 'corpus')
-    return [lm.run(), lu.run(), lp.run(), lx.run()]
+    return lm.run(split=True) + lu.run(split=True) + [lp.run(), lx.run(), le.run()]
 
 
 # =============================================================== validation / construction
@@ -763,6 +844,30 @@ def api_ops(ctx, n):
                 return [getattr(o, a) for a in cls.__slots__]
             ops.append(('api.construct %d' % key, (lambda mk=mk, cls=cls: outcome(mk, show=lambda vs: ' '.join(sx(v) for v in vs)) if cls.__slots__ else outcome(mk)), cls.name))
     return ops
+
+
+def lane_api_toggle(ctx):
+    """toggle sequences interleaved with integer encodes only (C11)"""
+    ln = Lane('api.toggle')
+    g = ctx.gen
+    old = encode.DEPRECATED_RABBITMQ_SUPPORT
+    encode.DEPRECATED_RABBITMQ_SUPPORT = False
+    try:
+        for i in range(3000 if ctx.thorough else 600):
+            if g.r.random() < 0.3:
+                arg = g.r.choice(['d', '1', '0'])
+                if arg == 'd':
+                    encode.support_deprecated_rabbitmq()
+                else:
+                    encode.support_deprecated_rabbitmq(arg == '1')
+                ln.add('api.toggle ' + arg, 'ok', 'toggle ' + arg, 'toggle')
+            else:
+                n = g.r.choice([40000, 65535, 32768, 3000000000, 2 ** 31, 2 ** 32 - 1, 200, -5, g.integer()])
+                v = n if g.r.random() < 0.6 else g.r.choice([[n], {'k': n}, {'a': [{'n': n}]}])
+                ln.add('api.encvalue ' + sx(v), outcome(encode.encode_table_value, v, show=show_bytes), repr(v), 'encode')
+    finally:
+        encode.DEPRECATED_RABBITMQ_SUPPORT = old
+    return ln.run()
 
 
 def lane_api_seq(ctx):
